@@ -61,8 +61,45 @@ Theorem C12_rejected_untouched_any_file :
 Proof. exact resume_rejected. Qed.
 Print Assumptions C12_rejected_untouched_any_file.
 
+(* (2b) WHICH refusal: [resume_refusal] (Crash.v) names the check that refuses -- one constructor
+   of [refusal] per error site of store.ResumableVersion / store.Resume before the first write;
+   the harness maps the library's error messages to the same names and bin/check compares them.
+   For every byte string: the named refusal is returned with its error class and the file is
+   untouched; and every refusal of (2) is one of the six. *)
+Theorem C12_refusal_any_file :
+  forall hdrdec k can_truncate o roots file faults,
+    (forall r, resume_refusal hdrdec can_truncate o roots file = Some r ->
+               resume hdrdec k can_truncate o roots file faults
+               = inr (refusal_err r, mkdev file [] faults)) /\
+    (forall e, resume_checks hdrdec can_truncate o roots file = Err e ->
+               exists r, resume_refusal hdrdec can_truncate o roots file = Some r /\ e = refusal_err r).
+Proof. exact refusal_any_file. Qed.
+Print Assumptions C12_refusal_any_file.
+
+(* (2c) headers above the caller's MaxAllowedHeaderSize, whatever the limit is (below or above the
+   32 MiB default: since library commit d0c2027 both header reads of a resume run under the
+   caller's limit, and (1), (3)-(5) only assume header <= that limit).  For EVERY byte string whose
+   header at the data offset declares a length l above the limit: the reopen is refused -- by an
+   earlier check, or else as "error reading car header" with the header-too-large class -- never
+   as a root mismatch, never accepted, and the file is untouched. *)
+Theorem C12_oversized_header_refused :
+  forall hdrdec k can_truncate o roots file faults l rest,
+    l < two63 -> w_maxh o < l ->
+    drop (data_base o) file = put_uv l ++ rest ->
+    exists r, resume_refusal hdrdec can_truncate o roots file = Some r /\
+              match r with
+              | RMismatch => False
+              | RDataHeader e => e = EHeaderTooLarge
+              | _ => True
+              end /\
+              resume hdrdec k can_truncate o roots file faults
+              = inr (refusal_err r, mkdev file [] faults).
+Proof. exact resume_oversized_header. Qed.
+Print Assumptions C12_oversized_header_refused.
+
 (* (3) the file any reachable session state leaves behind (after Discard or Finalize), reopened
-   with roots that are not a permutation of the session's roots: refused, untouched. *)
+   with roots that are not a permutation of the session's roots: refused as "mismatching data
+   header" (error class: other), untouched. *)
 Theorem C12_reject_roots :
   forall (hdrdec : bytes -> option (list bytes * N)) (k : skind) (o : wopts) (nilroots : bool)
          (roots : list bytes),
@@ -79,12 +116,14 @@ Theorem C12_reject_roots :
     run_segs hdrdec nilroots s0 segs = Some sN ->
     forall roots' : list bytes,
     ~ Permutation roots roots' ->
+    reopen_refusal hdrdec o roots' (ws_file (end_seg c (run_puts sN last))) = Some RMismatch /\
     reopen hdrdec k o nilroots roots' (ws_file (end_seg c (run_puts sN last))) =
     inr (EOther, mkdev (ws_file (end_seg c (run_puts sN last))) [] []).
 Proof. exact C12_reject_roots_thm. Qed.
 Print Assumptions C12_reject_roots.
 
-(* (4) ... reopened for the other CAR version: refused, untouched. *)
+(* (4) ... reopened for the other CAR version: refused by the version check ("cannot resume on CAR
+   file with version N", class other), untouched. *)
 Theorem C12_reject_version :
   forall (hdrdec : bytes -> option (list bytes * N)) (k : skind) (o : wopts) (nilroots : bool)
          (roots : list bytes),
@@ -99,6 +138,8 @@ Theorem C12_reject_version :
       + blen (enc_sections (concat (map fst segs) ++ last)) < two63 ->
     open_new k o nilroots roots [] = Ok s0 ->
     run_segs hdrdec nilroots s0 segs = Some sN ->
+    reopen_refusal hdrdec (with_v1 o (negb (w_v1 o))) roots (ws_file (end_seg c (run_puts sN last)))
+      = Some RVersion /\
     reopen hdrdec k (with_v1 o (negb (w_v1 o))) nilroots roots (ws_file (end_seg c (run_puts sN last))) =
     inr (EOther, mkdev (ws_file (end_seg c (run_puts sN last))) [] []).
 Proof. exact C12_reject_version_thm. Qed.
@@ -107,7 +148,9 @@ Print Assumptions C12_reject_version.
 (* (5) ... reopened with another data padding (CARv2): refused and untouched PROVIDED the file is
    finalized (the CARv2 header records the data offset) or the bytes at the caller's offset are
    not a CARv1 header matching the roots.  The guard is executable (Crash.finalized_file,
-   Crash.header_at) and cannot be dropped: (6). *)
+   Crash.header_at) and cannot be dropped: (6).  The refusal is [padding_refusal]: "mismatched
+   CARv1 offset" on a finalized file; on a non-finalized one whatever the bytes at the caller's
+   offset amount to ([refusal_at]: "error reading car header: e", or "mismatching data header"). *)
 Theorem C12_reject_padding_partial :
   forall (hdrdec : bytes -> option (list bytes * N)) (k : skind) (o : wopts) (nilroots : bool)
          (roots : list bytes),
@@ -126,8 +169,11 @@ Theorem C12_reject_padding_partial :
     w_v1 o = false -> p' <> w_dpad o -> 51 + p' < two64 ->
     finalized_file (ws_file (end_seg c (run_puts sN last)))
     || negb (header_at hdrdec (with_dpad o p') roots (ws_file (end_seg c (run_puts sN last)))) = true ->
-    exists e, reopen hdrdec k (with_dpad o p') nilroots roots (ws_file (end_seg c (run_puts sN last))) =
-              inr (e, mkdev (ws_file (end_seg c (run_puts sN last))) [] []).
+    reopen_refusal hdrdec (with_dpad o p') roots (ws_file (end_seg c (run_puts sN last)))
+      = Some (padding_refusal hdrdec (with_dpad o p') roots (ws_file (end_seg c (run_puts sN last)))) /\
+    reopen hdrdec k (with_dpad o p') nilroots roots (ws_file (end_seg c (run_puts sN last))) =
+    inr (refusal_err (padding_refusal hdrdec (with_dpad o p') roots (ws_file (end_seg c (run_puts sN last)))),
+         mkdev (ws_file (end_seg c (run_puts sN last))) [] []).
 Proof. exact C12_reject_padding_thm. Qed.
 Print Assumptions C12_reject_padding_partial.
 
